@@ -10,6 +10,8 @@
 -/
 import QlibcModel.Tree.FaultSpec
 import QlibcModel.Tree.ByteCmp
+import QlibcModel.Props.C15Seq
+import QlibcModel.Props.C15Map
 
 namespace Qlibc.Props.C15
 open Qlibc Qlibc.Tree Qlibc.Tree.T
